@@ -168,6 +168,20 @@ func scenarios(tier string) []Scn {
 		a, c := early(v, 0), early(v, 1)
 		out = append(out, Scn{Kind: "proto", Items: []proto.Scn{a, c}, Bound: 1, Name: v + "+" + v + "/two-runs-at-once"})
 	}
+	for _, v := range []string{"udp4", "icmp6"} {
+		// two runs at once, each also receiving packets of protocols the tool does not speak and undecodable bytes (capture
+		// filtering is an optimisation: off here), so that both receivers go through the parser's skip / error paths together
+		a, c := early(v, 0), early(v, 1)
+		for _, sc := range []*proto.Scn{&a, &c} {
+			sc.FiltersOff = true
+			form := proto.Info(v).TEForm
+			sc.Inject = append(sc.Inject,
+				proto.Inject{OnTTL: 1, AnswerTTL: 1, Form: form, From: sc.Target().String(), DelayUs: 1200, Tag: "noise", NoiseKind: "protocol", NoiseArg: 47},
+				proto.Inject{OnTTL: 2, AnswerTTL: 2, Form: form, From: sc.Target().String(), DelayUs: 1200, Tag: "noise", NoiseKind: "protocol", NoiseArg: 132},
+				proto.Inject{OnTTL: 2, AnswerTTL: 2, Form: form, From: sc.Target().String(), DelayUs: 1300, Tag: "noise", NoiseKind: "truncate", NoiseArg: 9})
+		}
+		out = append(out, Scn{Kind: "proto", Items: []proto.Scn{a, c}, Bound: 1, Name: v + "+" + v + "/two-runs-at-once/foreign-protocols-and-runts"})
+	}
 	for _, pr := range []struct{ p, m, h string }{{"udp", "", "203.0.113.77"}, {"icmp", "", "203.0.113.77"}, {"tcp", "sack", "198.18.0.9"}, {"tcp", "syn", "203.0.113.77"}, {"udp", "", "2001:db8::77"}, {"icmp", "", "2001:db8::77"}} {
 		r := proto.RTScn{Hostname: pr.h, Protocol: pr.p, Method: pr.m, MinTTL: 1, MaxTTL: 4, DelayMs: 10, TimeoutMs: 200, Queries: 2, E2e: 2, Dest: 3, PublicIP: "ok", ReverseDNS: true, UseListenerPort: pr.m == "sack", IPIDBase: 1400, EchoBase: 140, WantV6: strings.Contains(pr.h, ":")}
 		fam := ""
